@@ -207,6 +207,20 @@ int cmdSamples(int argc, char** argv) {
 								layout = true;
 							}
 						}
+				// variant 2: the optional per-vertex attributes switched the other way (colours and eye data on; for every other
+				// file normals and tangents off): further vertex layouts
+				if (v == 2)
+					for (auto sh : nif.GetShapes())
+						if (auto bs = dynamic_cast<BSTriShape*>(sh)) {
+							if (dynamic_cast<BSDynamicTriShape*>(sh)) continue;
+							if (!bs->HasVertexColors()) bs->SetVertexColors(true);
+							if (!bs->HasEyeData()) bs->SetEyeData(true);
+							if (k % 2) {
+								bs->SetTangents(false);
+								bs->SetNormals(false);
+							}
+							layout = true;
+						}
 				size_t steps = layout ? 0 : 2 + r() % 6;
 				for (size_t s = 0; s < steps; s++) applyGraphOp(nif, jparse(randomGraphOp(nif, r)));
 				// a chain of loose named nodes stored child before parent, and a node with consecutive empty child entries
